@@ -86,6 +86,9 @@ enum Load {
     TaskCmd(u64),
     /// thread: post `m` messages (1 + 3m continuity frames; runs execute without a provider)
     Messages(u64),
+    /// task: TWO concurrent producers (actors 0 and PROD_B, as the stdout and stderr pumps of a pipes task are) emit `k`
+    /// output frames each through clones of one real `TaskEmitter` (`ripd::verif::build_app_with_task_driver`)
+    TwoProducers(u64),
 }
 impl Load {
     fn label(&self) -> String {
@@ -96,6 +99,7 @@ impl Load {
             Load::Provider(k) => format!("provider{k}"),
             Load::TaskCmd(k) => format!("taskcmd{k}"),
             Load::Messages(m) => format!("messages{m}"),
+            Load::TwoProducers(k) => format!("twoproducers{k}"),
         }
     }
     fn to_json(&self) -> serde_json::Value {
@@ -106,6 +110,7 @@ impl Load {
             Load::Provider(k) => json!({"load": "provider", "k": k}),
             Load::TaskCmd(k) => json!({"load": "taskcmd", "k": k}),
             Load::Messages(m) => json!({"load": "messages", "k": m}),
+            Load::TwoProducers(k) => json!({"load": "twoproducers", "k": k}),
         }
     }
     fn from_json(v: &serde_json::Value) -> Option<Load> {
@@ -117,6 +122,7 @@ impl Load {
             "provider" => Load::Provider(k),
             "taskcmd" => Load::TaskCmd(k),
             "messages" => Load::Messages(k),
+            "twoproducers" => Load::TwoProducers(k),
             _ => return None,
         })
     }
@@ -139,6 +145,8 @@ struct Case {
 }
 /// actor id of the foreign producer (subscribers are 1..=4)
 const OTHER: usize = 9;
+/// actor id of the second producer of the SAME stream (Load::TwoProducers)
+const PROD_B: usize = 8;
 fn case_json(c: &Case) -> serde_json::Value {
     json!({"kind": c.kind.name(), "load": c.load.to_json(), "subs": c.subs, "sched": c.sched, "others": c.others, "reads": c.reads})
 }
@@ -170,6 +178,10 @@ enum Ev {
     Oth,
     /// subscriber i read everything that was pending (mid-run read)
     Drain(usize),
+    /// two-producer load: producer j (0 = actor 0, 1 = PROD_B) took its seq number / recorded / published
+    MChoose(usize),
+    MRec(usize),
+    MPub(usize),
 }
 
 #[derive(Debug, Default)]
@@ -247,6 +259,8 @@ struct Ctl {
     pos: usize,
     prev: Option<usize>,
     guard: bool,
+    /// two producers on one stream (Load::TwoProducers): mutexes are handled by the probes in `enabled`
+    multi: bool,
     /// continuity seq mutex: who is between `cont.locked` and the return that follows `cont.advanced` / `cont.setnext`
     holder: Option<usize>,
     releasing: Option<usize>,
@@ -289,6 +303,25 @@ impl Ctl {
             }
             return;
         };
+        if self.multi && (actor == 0 || actor == PROD_B) {
+            let j = usize::from(actor == PROD_B);
+            match p {
+                "task.seq_chosen" => self.events.push(Ev::MChoose(j)),
+                "task.recorded" => {
+                    self.events.push(Ev::MRec(j));
+                    self.events.push(Ev::Rec);
+                }
+                "task.sent" => {
+                    self.events.push(Ev::MPub(j));
+                    self.events.push(Ev::Pub);
+                }
+                _ => {}
+            }
+            if actor == 0 {
+                self.p_trace.push(p);
+            }
+            return;
+        }
         if actor == 0 {
             self.p_trace.push(p);
             if p == self.kind.pub_point() {
@@ -314,9 +347,11 @@ impl Ctl {
             self.events.push(Ev::Snap(actor));
         }
     }
-    fn pick(&mut self, en: &[(usize, &'static str)]) -> Option<usize> {
+    /// `en` = the enabled parked actors, `all` = every parked actor (an actor that is parked at a point but not enabled
+    /// right now has still ARRIVED there)
+    fn pick(&mut self, en: &[(usize, &'static str)], all: &BTreeMap<usize, &'static str>) -> Option<usize> {
         if let Some(a) = self.prev.take() {
-            let at = en.iter().find(|(x, _)| *x == a).map(|(_, p)| *p);
+            let at = en.iter().find(|(x, _)| *x == a).map(|(_, p)| *p).or_else(|| all.get(&a).cloned());
             self.arrived(a, at);
         }
         let parked = |a: usize| en.iter().find(|(x, _)| *x == a).map(|(_, p)| *p);
@@ -436,6 +471,7 @@ struct Env {
     main_rt: tokio::runtime::Runtime,
     uses: usize,
     key: String,
+    driver: Option<ripd::verif::tasks::TaskStreamDriver>,
 }
 const ENV_MAX_USES: usize = 40;
 impl Env {
@@ -467,8 +503,14 @@ impl Env {
             stateless_history: false,
             parallel_tool_calls: false,
         });
-        let app = ripd::verif::build_app(data, ws, cfg);
-        Env { scratch, app, _provider: provider, main_rt: new_rt(), uses: 0, key: Env::key_of(c) }
+        let (app, driver) = match c.load {
+            Load::TwoProducers(_) => {
+                let (app, d) = ripd::verif::build_app_with_task_driver(data, ws);
+                (app, Some(d))
+            }
+            _ => (ripd::verif::build_app(data, ws, cfg), None),
+        };
+        Env { scratch, app, _provider: provider, main_rt: new_rt(), uses: 0, key: Env::key_of(c), driver }
     }
     fn key_of(c: &Case) -> String {
         // cases with a foreign producer get a fresh store each (uses limit below): the main thread is then short, so a
@@ -481,7 +523,7 @@ impl Env {
 }
 fn env_for<'a>(slot: &'a mut Option<Env>, c: &Case) -> &'a mut Env {
     let stale = match slot {
-        Some(e) => e.key != Env::key_of(c) || e.uses >= ENV_MAX_USES || c.others > 0,
+        Some(e) => e.key != Env::key_of(c) || e.uses >= ENV_MAX_USES || c.others > 0 || matches!(c.load, Load::TwoProducers(_)),
         None => true,
     };
     if stale {
@@ -512,14 +554,20 @@ fn run_case(env: &mut Env, c: &Case) -> Outcome {
             assert_eq!(st, 200);
             *stream_id.lock().unwrap() = Some(v["thread_id"].as_str().unwrap().to_string());
         }
-        Kind::Task => {}
+        Kind::Task => {
+            if let Some(d) = &env.driver {
+                *stream_id.lock().unwrap() = Some(d.task_id());
+            }
+        }
     }
+    let driver = env.driver.clone();
 
     out.pre_existing = c.kind == Kind::Thread;
     let sched = Sched::new();
     sched.install();
     let (tx, rx) = std::sync::mpsc::channel::<(usize, tokio::runtime::Runtime, u16, Option<Reader>, Vec<usize>)>();
     let producer_done = Arc::new(std::sync::atomic::AtomicBool::new(false));
+    let producer_b_done = Arc::new(std::sync::atomic::AtomicBool::new(driver.is_none()));
 
     // ---- producer actor
     {
@@ -529,6 +577,7 @@ fn run_case(env: &mut Env, c: &Case) -> Outcome {
         let kind = c.kind;
         let data = data.clone();
         let producer_done = producer_done.clone();
+        let driver_a = driver.clone();
         sched.spawn(0, move || {
             let rt = new_rt();
             let finished = rt.block_on(async move {
@@ -549,6 +598,17 @@ fn run_case(env: &mut Env, c: &Case) -> Outcome {
                             tokio::time::sleep(Duration::from_millis(1)).await;
                         }
                         snap.exists()
+                    }
+                    Kind::Task if matches!(load, Load::TwoProducers(_)) => {
+                        let n = match load {
+                            Load::TwoProducers(n) => n,
+                            _ => 0,
+                        };
+                        let d = driver_a.expect("driver");
+                        for i in 0..n {
+                            d.emit_output(false, &format!("o{i}")).await;
+                        }
+                        true
                     }
                     Kind::Task => {
                         let k = match load {
@@ -597,6 +657,19 @@ fn run_case(env: &mut Env, c: &Case) -> Outcome {
                 }
             });
             producer_done.store(finished, std::sync::atomic::Ordering::SeqCst);
+        });
+    }
+    // ---- the second producer of the SAME task stream (the stderr pump next to the stdout pump)
+    if let (Some(d), Load::TwoProducers(n)) = (driver.clone(), c.load.clone()) {
+        let done = producer_b_done.clone();
+        sched.spawn(PROD_B, move || {
+            let rt = new_rt();
+            rt.block_on(async move {
+                for i in 0..n {
+                    d.emit_output(true, &format!("e{i}")).await;
+                }
+            });
+            done.store(true, std::sync::atomic::Ordering::SeqCst);
         });
     }
     // ---- the producer of OTHER streams on the same channel (thread kind: every thread shares the continuity channel)
@@ -649,13 +722,36 @@ fn run_case(env: &mut Env, c: &Case) -> Outcome {
     }
     drop(tx);
 
-    let ctl = std::cell::RefCell::new(Ctl { kind: c.kind, prefix: c.sched.clone(), pos: 0, prev: None, guard: false, holder: None, releasing: None, log_holder: None, events: vec![], p_trace: vec![] });
+    let ctl = std::cell::RefCell::new(Ctl { kind: c.kind, prefix: c.sched.clone(), pos: 0, prev: None, guard: false, multi: matches!(c.load, Load::TwoProducers(_)), holder: None, releasing: None, log_holder: None, events: vec![], p_trace: vec![] });
     let sid_probe = stream_id.clone();
+    let probe = driver.clone();
+    let sub_point = c.kind.sub_point();
+    // every parked actor of the current scheduling round (the scheduler asks `enabled` for each of them, then calls pick)
+    let seen: std::rc::Rc<std::cell::RefCell<BTreeMap<usize, &'static str>>> = Default::default();
+    let seen_w = seen.clone();
     let enabled = move |actor: usize, point: &'static str| -> bool {
+        seen_w.borrow_mut().insert(actor, point);
+        // two-producer load: nobody is granted into a mutex that is held right now (try_lock probes on the real emitter).
+        // With the seq mutex spanning the whole emit the second producer is simply not enabled while the first is inside;
+        // if the span is narrowed the probe says "free" and the overtaking interleaving becomes a real schedule.
+        if let Some(d) = &probe {
+            if point == "task.before_emit" && !d.seq_free() {
+                return false;
+            }
+            if (point == "task.seq_chosen" || point == sub_point) && !d.buffer_free() {
+                return false;
+            }
+        }
         // a subscriber cannot be started before the stream's id exists (task ids are minted by POST /tasks)
         !(actor != 0 && point == "start" && sid_probe.lock().unwrap().is_none())
     };
-    let trace = sched.run(|en| ctl.borrow_mut().pick(en), &enabled);
+    let trace = sched.run(
+        |en| {
+            let all = std::mem::take(&mut *seen.borrow_mut());
+            ctl.borrow_mut().pick(en, &all)
+        },
+        &enabled,
+    );
     Sched::uninstall();
     {
         let mut ctl = ctl.borrow_mut();
@@ -671,7 +767,7 @@ fn run_case(env: &mut Env, c: &Case) -> Outcome {
     out.in_flight = trace.in_flight_timeouts;
     out.deadlock = trace.deadlock;
     out.panicked = trace.panicked.clone();
-    out.complete = !trace.deadlock && producer_done.load(std::sync::atomic::Ordering::SeqCst);
+    out.complete = !trace.deadlock && producer_done.load(std::sync::atomic::Ordering::SeqCst) && producer_b_done.load(std::sync::atomic::Ordering::SeqCst);
 
     let id = stream_id.lock().unwrap().clone().unwrap_or_default();
     out.truth = stream_frames(&data, &id, c.kind == Kind::Thread).into_iter().map(|(s, _)| s).collect();
@@ -834,11 +930,13 @@ fn coq_case(c: &Case, o: &Outcome) -> String {
         (Some(p), Some(r)) => p < r,
         _ => false,
     };
-    let evs = coq_list(&model_events(o), |e| match e {
+    let single: Vec<Ev> = model_events(o).into_iter().filter(|e| !matches!(e, Ev::MChoose(_) | Ev::MRec(_) | Ev::MPub(_))).collect();
+    let evs = coq_list(&single, |e| match e {
         Ev::Pub | Ev::Rec => "AP".to_string(),
         Ev::Sub(i) | Ev::Snap(i) => format!("(AS {})", coq_nat(*i as u64 - 1)),
         Ev::Oth => "AO".to_string(),
         Ev::Drain(i) => format!("(AS {})", coq_nat(*i as u64 - 1)),
+        Ev::MChoose(_) | Ev::MRec(_) | Ev::MPub(_) => unreachable!(),
     });
     let mut expect = vec![];
     for (st, seqs) in &o.delivered {
@@ -1035,6 +1133,47 @@ fn main() {
                 }
                 cases.push(Case { kind: *kind, load: load.clone(), subs, sched: s, others: r.range(1, 2) as usize, reads: r.range(0, 2) as usize });
             }
+        }
+    }
+
+    // ---- two producers on one task stream (stdout pump / stderr pump): one emit = 9 points
+    // (before_emit, seq_chosen, recorded, sent, log.before_lock, log.locked, log.body_written, log.nl_written, log.flushed)
+    {
+        let kind = Kind::Task;
+        let load = Load::TwoProducers(2);
+        // producer A advances `a` steps (a = 2: parked right after taking its seq number), then producer B tries to run
+        // `b` steps (a whole emit and more), then the subscriber attaches, then everybody finishes
+        let a_steps: Vec<usize> = if thorough { (0..=12).collect() } else { vec![0, 1, 2, 3, 4, 6, 11] };
+        let b_steps: Vec<usize> = if thorough { vec![0, 1, 2, 3, 4, 5, 9, 10, 11, 12, 19] } else { vec![0, 2, 3, 10, 19] };
+        for a_ in &a_steps {
+            for b_ in &b_steps {
+                let mut s = vec![0; *a_];
+                s.extend(vec![PROD_B; *b_]);
+                s.extend([1, 1]);
+                cases.push(Case { kind, load: load.clone(), subs: 1, sched: s, others: 0, reads: 0 });
+                // the subscriber is attached before both and reads as it goes
+                let mut s = vec![1, 1];
+                s.extend(vec![0; *a_]);
+                s.extend(vec![PROD_B; *b_]);
+                s.push(1);
+                s.extend(vec![0; 9]);
+                s.push(1);
+                cases.push(Case { kind, load: load.clone(), subs: 1, sched: s, others: 0, reads: 2 });
+            }
+        }
+        let n_rand = if thorough { 300 } else { 40 };
+        for _ in 0..n_rand {
+            let subs = r.range(1, 3) as usize;
+            let len = r.range(4, 60) as usize;
+            let mut s = vec![];
+            for _ in 0..len {
+                s.push(match r.range(0, 9) {
+                    0..=3 => 0,
+                    4..=6 => PROD_B,
+                    _ => r.range(1, subs as u64) as usize,
+                });
+            }
+            cases.push(Case { kind, load: Load::TwoProducers(r.range(1, 3)), subs, sched: s, others: 0, reads: r.range(0, 2) as usize });
         }
     }
 
